@@ -319,8 +319,15 @@ func (f *FnVC) strConcat(st *State, a, b Term) Term {
 		eq(app("soff", BV(64), r), u64(0)),
 		eq(app("slen", BV(64), r), app("bvadd", BV(64), la, lb)),
 	).S)
-	f.SC.Assert(fmt.Sprintf("(forall ((i (_ BitVec 64))) (! (=> (bvult i %s) (= (select (sarr %s) i) (select (sarr %s) (bvadd (soff %s) i)))) :pattern ((select (sarr %s) i))))", la.S, r.S, a.S, a.S, r.S))
-	f.SC.Assert(fmt.Sprintf("(forall ((i (_ BitVec 64))) (! (=> (bvult i %s) (= (select (sarr %s) (bvadd %s i)) (select (sarr %s) (bvadd (soff %s) i)))) :pattern ((select (sarr %s) (bvadd (soff %s) i)))))", lb.S, r.S, la.S, b.S, b.S, b.S, b.S))
+	// one axiom, triggered by any read of the result: r[j] is a's byte for j < |a|, b's byte for |a| <= j < |a|+|b|
+	f.SC.Assert(fmt.Sprintf("(forall ((j (_ BitVec 64))) (! (and (=> (bvult j %s) (= (select (sarr %s) j) (select (sarr %s) (bvadd (soff %s) j)))) (=> (and (bvuge j %s) (bvult j (bvadd %s %s))) (= (select (sarr %s) j) (select (sarr %s) (bvadd (soff %s) (bvsub j %s)))))) :pattern ((select (sarr %s) j))))",
+		la.S, r.S, a.S, a.S, la.S, la.S, lb.S, r.S, b.S, b.S, la.S, r.S))
+	// constant parts are spelled out (no quantifier instantiation needed for them)
+	if s, ok := f.E.strLits[a.S]; ok && len(s) <= 64 {
+		for i := 0; i < len(s); i++ {
+			f.SC.Assert(eq(sel(app("sarr", arraySort(BV(64), BV(8)), r), u64(uint64(i))), bvLit(uint64(s[i]), 8)).S)
+		}
+	}
 	return r
 }
 
